@@ -1,5 +1,8 @@
 #!/usr/bin/env bash
 # tools/multi_seed.sh <seed>...  — every registered quick check under each seed; one line per run.
+# Under `vp run --with-repo` the checks build against the repository snapshot ($VP_RUN_REPO), so that
+# experiments in /repo (seeded patches) cannot contaminate the run.
+[ -n "${VP_RUN_REPO:-}" ] && export VERIF_REPO="$VP_RUN_REPO"
 IDS=$(python3 -c "import json;print(' '.join(c['property_id'] for c in json.load(open('MANIFEST.json'))['checks']))")
 for seed in "$@"; do
   for id in $IDS; do
